@@ -18,25 +18,38 @@
 (* have no influence.  Stateful = TRUE is the variant where that decision  *)
 (* survives from one line to the next (a realistic slip: the flag hoisted  *)
 (* out of the loop); it must violate OnlyDocumented.                       *)
+(*                                                                         *)
+(* form = "access-suffix": the value is carried by the key with ".access"  *)
+(* appended.  The allow-list lets every "<...>.access" key through (it is  *)
+(* the documented lfs.<url>.access pattern), so the line is kept - as the  *)
+(* access mode of a URL, which is harmless.  It must not become effective  *)
+(* for the key it is a suffix of; a consumer that recognises its keys by   *)
+(* an unanchored pattern (PrefixMatch = TRUE) makes it so and must violate *)
+(* Independent.                                                            *)
 (***************************************************************************)
 EXTENDS Integers, Sequences, FiniteSets, TLC, Json, CSV, IOUtils
 
 CONSTANTS Keys,        \* set of [name, doc, pat]: key classes; doc: documented as safe; pat: allow-listed by pattern rather than by name
           Neighbours,  \* set of such records used as the other lines of the file
           MaxBefore, MaxAfter,
-          Spellings, Locations, Emit, Stateful, Thin
+          Spellings, Locations, Emit, Stateful, Thin, Forms, PrefixMatch
 
-VARIABLES key, before, after, spelling, location, alsoGit, i, allowed, kept, gitconfig, effective
-vars == <<key, before, after, spelling, location, alsoGit, i, allowed, kept, gitconfig, effective>>
+VARIABLES key, before, after, spelling, location, alsoGit, i, allowed, kept, gitconfig, effective, form
+vars == <<key, before, after, spelling, location, alsoGit, i, allowed, kept, gitconfig, effective, form>>
 
 SeqsUpTo(S, n) == UNION {[1..k -> S] : k \in 0..n}
-File == before \o <<key>> \o after
+\* the line under test as it stands in the file
+Carrier == IF form = "access-suffix" THEN [name |-> key.name \o ".access", doc |-> TRUE, pat |-> TRUE] ELSE key
+File == before \o <<Carrier>> \o after
 At   == Len(before) + 1                           \* position of the key under test
 
 Init == /\ key \in Keys /\ spelling \in Spellings /\ location \in Locations /\ alsoGit \in BOOLEAN
         /\ before \in SeqsUpTo(Neighbours, MaxBefore) /\ after \in SeqsUpTo(Neighbours, MaxAfter)
         \* Thin: neighbours are only combined with the plain spelling/location/no overlay
         /\ (Thin /\ (before # <<>> \/ after # <<>>)) => (spelling = "lower" /\ location = "worktree" /\ ~alsoGit)
+        /\ form \in Forms
+        \* the suffixed form is only of interest for keys that are not allowed by themselves, on its own
+        /\ (form = "access-suffix" => (~key.doc /\ before = <<>> /\ after = <<>> /\ spelling = "lower" /\ location = "worktree"))
         /\ i = 1 /\ allowed = FALSE /\ kept = {} /\ gitconfig = "unread" /\ effective = "undecided"
 
 \* one iteration of the loop over the lines of the OnlySafeKeys source
@@ -47,13 +60,15 @@ Line == /\ i <= Len(File) /\ effective = "undecided"
            IN /\ allowed' = a1
               /\ kept' = IF a1 \/ ln.doc THEN kept \cup {i} ELSE kept   \* !allowed && keyIsUnsafe(key) => ignored
         /\ i' = i + 1
-        /\ UNCHANGED <<key, before, after, spelling, location, alsoGit, gitconfig, effective>>
+        /\ UNCHANGED <<key, before, after, spelling, location, alsoGit, gitconfig, effective, form>>
 
 \* Git's own sources are read after it and shadow it
 Overlay == /\ i > Len(File) /\ effective = "undecided"
            /\ gitconfig' = IF alsoGit THEN "V2" ELSE "none"
-           /\ effective' = IF alsoGit THEN "git" ELSE IF At \in kept THEN "lfsconfig" ELSE "none"
-           /\ UNCHANGED <<key, before, after, spelling, location, alsoGit, i, allowed, kept>>
+           \* the value becomes the setting of key only if the kept line names exactly that key
+           /\ effective' = IF alsoGit THEN "git"
+                           ELSE IF At \in kept /\ (form = "plain" \/ PrefixMatch) THEN "lfsconfig" ELSE "none"
+           /\ UNCHANGED <<key, before, after, spelling, location, alsoGit, i, allowed, kept, form>>
 Next == Line \/ Overlay
 Spec == Init /\ [][Next]_vars
 
@@ -65,7 +80,7 @@ GitWins        == (Decided /\ alsoGit) => effective = "git"
 Independent    == Decided => effective = (IF alsoGit THEN "git" ELSE IF key.doc THEN "lfsconfig" ELSE "none")
 
 Names(s) == [j \in DOMAIN s |-> s[j].name]
-Case == [key |-> key.name, documented |-> key.doc, before |-> Names(before), after |-> Names(after),
+Case == [key |-> key.name, documented |-> key.doc, form |-> form, before |-> Names(before), after |-> Names(after),
          spelling |-> spelling, location |-> location, alsoGit |-> alsoGit, expect |-> effective]
 EmitState == (Emit /\ Decided) => CSVWrite("%1$s", <<ToJson(Case)>>, IOEnv.OUT)
 =============================================================================
